@@ -34,8 +34,74 @@ NOT_DECIDED = ('Correctness of the inferred grid for arbitrary subsets ((max-min
                'read; bitwise equality with the zero-filled ZFP image.')
 
 
+def constancy_test(ctx, rule):
+    """A stored header array is turned into a table constant (update_table + removal from headers_dict) only when every
+    entry of the array - holes included: a hole reads back as zero, and so must a header word that is zero on a real
+    trace - equals one value: the guard is np.all(A == A[k]) over the WHOLE array A = headers_dict[word].  A test on a
+    subset (zeros dropped, a stride, the populated traces only) makes words with values {0, c} constant c."""
+    P, G = ctx.P, ctx.G
+    n = 0
+    for f in P.functions.values():
+        for d in ast.walk(f.node):
+            if not (isinstance(d, ast.Delete) and any('headers_dict[' in U(t) for t in d.targets)):
+                continue
+            n += 1
+            # the guarding test
+            g = parent(d)
+            while g is not None and g is not f.node and not isinstance(g, ast.If):
+                g = parent(g)
+            if not isinstance(g, ast.If):
+                ctx.fail(rule, f, d, 'a header array is removed unconditionally')
+                continue
+            t = g.test
+            key = U(d.targets[0])       # <dict>[word]
+            ok = False
+            why = 'the removal is not guarded by np.all(<array> == <array>[k])'
+            if isinstance(t, ast.Call) and U(t.func).split('.')[-1] == 'all' and len(t.args) == 1 and \
+                    isinstance(t.args[0], ast.Compare) and len(t.args[0].ops) == 1 and isinstance(t.args[0].ops[0], ast.Eq):
+                l, r = t.args[0].left, t.args[0].comparators[0]
+
+                def whole(e, depth=0):
+                    # the array itself: <dict>[word], or a local bound exactly once to it
+                    if U(e) == key:
+                        return True
+                    if isinstance(e, ast.Name) and depth < 3:
+                        # the value variable of a loop over <dict>.items() whose key variable is the removed word
+                        tnode = d.targets[0]
+                        for lp in ast.walk(f.node):
+                            if isinstance(lp, ast.For) and isinstance(lp.target, ast.Tuple) and len(lp.target.elts) == 2 and \
+                                    U(lp.target.elts[1]) == e.id and U(lp.target.elts[0]) == U(tnode.slice) and \
+                                    (U(tnode.value) + '.items()') in U(lp.iter) and any(d is x for x in ast.walk(lp)) and \
+                                    not any(isinstance(a, (ast.Assign, ast.AugAssign)) and any(
+                                        isinstance(y, ast.Name) and y.id == e.id and isinstance(y.ctx, ast.Store) for y in ast.walk(a))
+                                        for b in lp.body for a in ast.walk(b)):
+                                return True
+                        defs = [a for a in ast.walk(f.node) if isinstance(a, ast.Assign) and len(a.targets) == 1 and U(a.targets[0]) == e.id]
+                        others = [a for a in ast.walk(f.node) if isinstance(a, (ast.AugAssign,)) and U(a.target) == e.id]
+                        return len(defs) == 1 and not others and whole(defs[0].value, depth + 1)
+                    return False
+                elem = r if whole(l) else l if whole(r) else None
+                arr = l if whole(l) else r if whole(r) else None
+                if arr is None:
+                    why = 'the constancy test `%s` is evaluated on `%s`, not on the whole array %s: entries left out (zeros, ' \
+                          'unpopulated positions, a stride) can differ from the constant that is stored' % (
+                              U(t)[:60], U(l if not whole(l) else r)[:30], key)
+                elif isinstance(elem, ast.Subscript) and whole(elem.value) and not isinstance(elem.slice, (ast.Slice, ast.Tuple)):
+                    ok = True
+                else:
+                    why = 'the array is compared with `%s`, not with one of its own entries' % U(elem)[:40]
+            if ok:
+                ctx.ok(rule, f, g.test, 'array dropped only when every entry (holes included) equals one of its entries')
+            else:
+                ctx.fail(rule, f, g, why, line=g.lineno)
+    if n < 1:
+        raise AnalysisError('no removal from headers_dict found (the thorough re-classification)')
+
+
 def run(ctx):
     P, G = ctx.P, ctx.G
+    ctx.rule('C08.7', 'thorough detection drops a stored header array only when every entry of the whole array equals one value')
+    constancy_test(ctx, 'C08.7')
     ctx.rule('C08.1', 'unstructured branch: origin/step of each axis go to the field of that axis')
     ctx.rule('C08.2', 'lookup key order (IL, XL) = dictionary key order (189, 193)')
     ctx.rule('C08.3', 'holes are zero: fresh zero buffer per plane set, membership-guarded stores, zero header arrays of grid size')
